@@ -622,8 +622,8 @@ class Interp(Engine):
         if c is not None and not c.pure_inline and (c.returns is not None or c.modifies or c.trusted or c.options.get("modular")):
             return self.modular_call(c, func, args, kwargs)
         depth = sum(1 for nd in getattr(self, "_active_nodes", ()) if nd is func.node)
-        if depth and not self.spec_mode:
-            self.reentrant_call(func, depth)  # recursion whose depth no contract bounds: may raise RecursionError
+        if depth and not self.spec_mode and getattr(self, "recursion_limit_model", False):
+            self.reentrant_call(func, depth)  # contract option recursion_limit_model=True: recursion whose depth no contract bounds may raise RecursionError
         if len(self.inline_stack) > 40:
             raise Unsupported(f"inline depth exceeded at {func.key}" + (" (recursion on data of symbolic size: the recursive function needs a modular contract with a measure)" if depth else ""))
         fr = Frame(parent=func.frame, globs=func.globs, func=func)
@@ -812,6 +812,10 @@ class Interp(Engine):
                 # numpy in-place update of the stored array (aliases see it)
                 self.models.inplace_binop(self, s.op, cur, self.ev(s.value, fr))
                 return
+            if isinstance(cur, DictListRef) and isinstance(s.op, ast.Add):
+                # `d[k] += [x, ...]` on the int list stored in a symbolic dict: list.__iadd__ is an in-place extend, the entry stays the same object
+                self.models.LIST_METHODS["extend"](self, cur, [self.ev(s.value, fr)], {})
+                return
             self.models.setitem(self, base, idx, self.binop(s.op, cur, self.ev(s.value, fr)))
         elif isinstance(t, ast.Attribute):
             base = self.ev(t.value, fr)
@@ -916,7 +920,22 @@ class Interp(Engine):
                 raise ProgExc(type(e), str(e))
 
     def ex_ImportFrom(self, s, fr):
-        raise Unsupported("from-import inside a carrier")
+        """`from a.b import c [as d]` inside a function: binds the real object (calls into it still need a model / repository source)"""
+        import importlib
+
+        if s.level:
+            raise Unsupported("relative from-import inside a carrier")
+        try:
+            mod = importlib.import_module(s.module)
+            for al in s.names:
+                if al.name == "*":
+                    raise Unsupported("from-import * inside a carrier")
+                try:
+                    fr.vars[al.asname or al.name] = getattr(mod, al.name)
+                except AttributeError:
+                    fr.vars[al.asname or al.name] = importlib.import_module(s.module + "." + al.name)
+        except ImportError as e:
+            raise ProgExc(type(e), str(e))
 
     def ex_Delete(self, s, fr):
         for t in s.targets:
